@@ -55,18 +55,21 @@ def _expand_bool_local(cfg, atom_node_expr, at_node):
     return None
 
 
-def _prop(expr, atoms):
-    """Boolean formula over canonical atoms: returns a function assignment->bool; registers atoms in `atoms`."""
+def _prop(expr, atoms, ver=None):
+    """Boolean formula over canonical atoms: returns a function assignment->bool; registers atoms in `atoms`.
+    `ver(atom)` labels the values the atom reads at the place where the expression is evaluated (see storage_version)."""
     if isinstance(expr, ast.BoolOp):
-        subs = [_prop(v, atoms) for v in expr.values]
+        subs = [_prop(v, atoms, ver) for v in expr.values]
         if isinstance(expr.op, ast.And):
             return lambda a: all(s(a) for s in subs)
         return lambda a: any(s(a) for s in subs)
     if isinstance(expr, ast.UnaryOp) and isinstance(expr.op, ast.Not):
-        s = _prop(expr.operand, atoms)
+        s = _prop(expr.operand, atoms, ver)
         return lambda a: not s(a)
     at = atom_of(expr, True)
     key, pos = _canon(at)
+    if ver is not None:
+        key = key + (ver(at),)
     atoms.add(key)
     return (lambda a: a[key]) if pos else (lambda a: not a[key])
 
@@ -106,6 +109,18 @@ def entails(facts, goal_key, goal_pos):
     return sat, None
 
 
+def _ver_at(eng, fi, cfg):
+    from .common import storage_version
+    memo = {}
+
+    def ver_at(loc, at):
+        k = (loc, ekey(at.lhs) if at.lhs is not None else "", ekey(at.rhs) if at.rhs is not None else "")
+        if k not in memo:
+            memo[k] = storage_version(eng, fi, cfg, loc, [at.lhs, at.rhs])
+        return memo[k]
+    return ver_at
+
+
 def path_facts_at(eng, fi, cfg, site_node, sink_nodes, var):
     """For an exit message constructed at site_node and stored in `var`: for every sink (return/break) that this
     definition reaches, the path condition = guards of the site + negated guards of every other definition of `var`
@@ -116,12 +131,9 @@ def path_facts_at(eng, fi, cfg, site_node, sink_nodes, var):
         if (var, site_node) not in rd:
             continue
         formulas, atoms = [], set()
+        ver_at = _ver_at(eng, fi, cfg)
         for (b, at) in guards_of(cfg, site_node):
-            ex = cfg.ast_of(b)
-            lab = None
-            for m, e in cfg.succ(b):
-                pass
-            f = _formula_of_guard(cfg, b, at, atoms)
+            f = _formula_of_guard(cfg, b, at, atoms, ver_at)
             formulas.append(f)
         # other defs of var that post-date the site and could overwrite it on the way to s
         for n in cfg.g.nodes:
@@ -136,20 +148,25 @@ def path_facts_at(eng, fi, cfg, site_node, sink_nodes, var):
                 own = [(b, at) for (b, at) in gs_n.items() if b not in gs_s and b not in gs_site]
                 if not own:
                     continue
-                fs = [_formula_of_guard(cfg, b, at, atoms) for (b, at) in own]
+                fs = [_formula_of_guard(cfg, b, at, atoms, ver_at) for (b, at) in own]
                 formulas.append(lambda a, fs=fs: not all(f(a) for f in fs))
         out.append((s, (formulas, atoms)))
     return out
 
 
-def _formula_of_guard(cfg, b, at, atoms):
-    """Formula of one control dependence (cond node b with outcome encoded in atom `at`), expanding boolean locals."""
+def _formula_of_guard(cfg, b, at, atoms, ver_at=None):
+    """Formula of one control dependence (cond node b with outcome encoded in atom `at`), expanding boolean locals.
+    `ver_at(location, atom)`: label of the values the atom reads at that CFG node -- a boolean local is evaluated where it is *defined*, not where it is tested,
+    so an atom of its definition and a same-looking atom tested later are one proposition only if no write to their operands lies between (seed C10-x)."""
     if at.op in ("truth", "false"):
         ex = _expand_bool_local(cfg, at.lhs, cfg.ast_of(b))
         if ex is not None:
-            f = _prop(ex, atoms)
+            dn = cfg.defs_reaching(cfg.ast_of(b), at.lhs.id)[0]
+            f = _prop(ex, atoms, (lambda a2: ver_at(dn, a2)) if ver_at else None)
             return f if at.op == "truth" else (lambda a, f=f: not f(a))
     key, pos = _canon(at)
+    if ver_at is not None:
+        key = key + (ver_at(b, at),)
     atoms.add(key)
     return (lambda a, key=key: a[key]) if pos else (lambda a, key=key: not a[key])
 
@@ -455,18 +472,21 @@ def _maxfun_site(eng, rep, rule, fi, cfg, node, call, site, gs):
                 rel = _nf_relation(eng, fi, at)
                 if rel in ("nf<max", "nf>=max"):
                     key, pos = _canon(at)
-                    goal = (key, pos if rel == "nf<max" else not pos)
+                    goal = (key, pos if rel == "nf<max" else not pos, at)
     if goal is None:
         rep.bad(rule, site, "%s|maxfun-claim" % fi.fid, "no comparison of the evaluation counter with the budget in this function")
         return
+    ver_at = _ver_at(eng, fi, cfg)
     for (s, facts) in pfs:
         try:
-            okc, cex = entails(facts, goal[0], not goal[1])
+            # the claim is about the counters as they are when the message is returned
+            gkey = goal[0] + (ver_at(s, goal[2]),)
+            okc, cex = entails(facts, gkey, not goal[1])
         except AnalysisError as ex:
             rep.unknown(rule, site, str(ex))
             return
         if okc:
-            rep.ok(rule, site, "truth table over %d atoms: every path on which this message is returned has NF >= MAXFUN" % len(facts[1] | {goal[0]}))
+            rep.ok(rule, site, "truth table over %d atoms: every path on which this message is returned has NF >= MAXFUN" % len(facts[1] | {gkey}))
         else:
             rep.bad(rule, site, "%s|maxfun-claim" % fi.fid, "the MAXFUN message can be returned on a path where NF < MAXFUN is possible (counter-model: %s)" % (
                 {k[1] + "<" + k[2] if k[0] == "lt" else str(k): v for k, v in (cex or {}).items()}))
